@@ -368,7 +368,7 @@ def check_floors(counters, evaluations, tier):
     msgs = []
     for key, frac in (('overlapping-requests', 0.15),
                       ('stubborn-worker', 0.15), ('probe-while-busy', 0.3),
-                      ('real-periodic-callback', 0.18)):
+                      ('real-periodic-callback', 0.15)):
         if counters.get(key, 0) < frac * evaluations:
             msgs.append("%s in only %d of %d cases" % (
                 key, counters.get(key, 0), evaluations))
